@@ -401,6 +401,52 @@ def translate_jobstate(repo):
     return HEADER % path + m.emit("has_attempts_remaining")
 
 
+def translate_jobutil(repo):
+    """scheduler/base/job_util.py: the checks of BaseJob.__init__; scheduler/util.py::are_weekday_times_unique"""
+    import py2v_funcs as F
+    util = os.path.join(repo, "scheduler/util.py")
+    CURFILE[0] = util
+    utree = ast.parse(open(util).read())
+    known = {}
+    out = []
+    for fd in utree.body:
+        if isinstance(fd, ast.FunctionDef) and fd.name in ("next_weekday_time_occurrence", "are_times_unique"):
+            f = Fn(fd, {})
+            known[fd.name] = ([t for _, t in f.params], f.ret)
+    fds = {fd.name: fd for fd in utree.body if isinstance(fd, ast.FunctionDef)}
+    if "are_weekday_times_unique" not in fds:
+        raise Untranslatable("untranslatable: are_weekday_times_unique not found")
+    f = F.Func(fds["are_weekday_times_unique"], known)
+    out.append(f.emit())
+    known["are_weekday_times_unique"] = ([t for _, t in f.params], f.ret)
+    path = os.path.join(repo, "scheduler/base/job_util.py")
+    CURFILE[0] = path
+    tree = ast.parse(open(path).read())
+    vd_text, vd_keys = F.value_dict(tree, "_DAYLIKE_PERIOD", "daylike_period", "timedelta")
+    out.append(vd_text)
+    valdicts = {"_DAYLIKE_PERIOD": ("daylike_period", vd_keys, "timedelta")}
+    fds = {fd.name: fd for fd in tree.body if isinstance(fd, ast.FunctionDef)}
+    for name in ("standardize_timing_format", "check_timing_tzinfo", "check_duplicate_effective_timings",
+                 "set_start_check_stop_tzinfo"):
+        if name not in fds:
+            raise Untranslatable("untranslatable: %s not found in %s" % (name, path))
+        f = F.Func(fds[name], known, valdicts=valdicts)
+        out.append(f.emit())
+    head = HEADER % path + "From Gen Require Import GenOccur GenDup.\n\n"
+    return head + "\n".join(out)
+
+
+def translate_select(repo):
+    import py2v_funcs as F
+    path = os.path.join(repo, "scheduler/base/scheduler.py")
+    CURFILE[0] = path
+    tree = ast.parse(open(path).read())
+    fds = {fd.name: fd for fd in tree.body if isinstance(fd, ast.FunctionDef)}
+    if "select_jobs_by_tag" not in fds:
+        raise Untranslatable("untranslatable: select_jobs_by_tag not found")
+    return HEADER % path + F.Func(fds["select_jobs_by_tag"], {}).emit()
+
+
 def main():
     if len(sys.argv) != 3:
         print(__doc__)
@@ -419,7 +465,8 @@ def main():
         except (OSError, SyntaxError) as e:
             status[fname] = "untranslatable: cannot read/parse %s: %s" % (src, e)
     sys.path.insert(0, os.path.dirname(os.path.abspath(__file__)))
-    for fname, fn in (("GenTimer.v", translate_timer), ("GenJobState.v", translate_jobstate)):
+    for fname, fn in (("GenTimer.v", translate_timer), ("GenJobState.v", translate_jobstate),
+                      ("GenJobUtil.v", translate_jobutil), ("GenSelect.v", translate_select)):
         try:
             text = fn(repo)
             with open(os.path.join(outdir, fname), "w") as fh:
